@@ -30,6 +30,11 @@ MLayerCfgs == {[verb |-> sh.verb, dir |-> sh.dir, exc |-> sh.exc, any |-> FALSE,
 MDiagCfgs == {[comps |-> {RA, RB, RC}, deps |-> D, only |-> o] :
                  D \in {{<<RA, RB>>}, {<<RA, RB>>, <<RB, RC>>}, {<<RC, RA>>, <<RC, RB>>}}, o \in BOOLEAN}
 
+MAliasDoms == {{RA}, {RA, <<"r","a","x">>}, {<<"r">>, RB}, {RB, <<"r","q">>}}       \* the last one names a module that does not exist
+MQueryCfgs == {[q |-> q, dep |-> {NFn(p[1])}, upon |-> {NFn(p[2])}] : q \in {"deps", "other_from", "other_on"}, p \in {<<RA, RB>>, <<RC, RA>>}}
+              \cup {[q |-> "deps", dep |-> {NFn(RA), NFn(RB)}, upon |-> {NFn(RC)}],
+                    [q |-> "other_from", dep |-> {SFn(RA)}, upon |-> {NFn(RB)}]}
+
 Spec == SSpec
 View == <<archs, objs, results>>
 
